@@ -1711,7 +1711,10 @@ impl Vm {
                 .range_cache
                 .iter()
                 .enumerate()
-                .max_by(|first, second| first.1 .1.elapsed().cmp(&second.1 .1.elapsed()))
+                // The oldest entry is the one created first. (Comparing `elapsed()` values reads the
+                // clock once per operand, so entries created within a few nanoseconds of each
+                // other compared either way and the victim depended on timing.)
+                .min_by_key(|entry| entry.1 .1)
                 .map(|e| e.0)
                 .expect("Expect to find max given non-empty Vec.");
 
